@@ -270,7 +270,15 @@ def run(ctx):
     for u, e in regen.regen(['Wav']):          # tie T: rf_wavheader_get_format regenerated from wavheader.c
         ctx.broken.append(f'tie T: tools/c2lean.py cannot translate unit {u}: {e}')
     tie_ok = lambda t, a: bv_allow(t, a) or (t in ('Librfn.C13.get_format_generated', 'Librfn.C13.get_format_tie') and a.startswith('Librfn.C13.get_format_generated._native.bv_decide.ax_'))
-    ctx.prove(['Librfn.Props.C13', 'Librfn.Props.C13Tie'], REQUIRED + ['Librfn.C13.get_format_tie'], allow_extra_axioms=tie_ok)
+    # tie T (second generation): wavheader.c as a control skeleton with data (Props/C13TieSeq.lean)
+    for u, e in regen.regen(['WavSeq']):
+        ctx.broken.append(f'tie T: tools/c2lean2.py cannot translate unit {u}: {e}')
+    seq_ok = lambda t, a: t.startswith('Librfn.C13.TieSeq.') and a.startswith('Librfn.C13.TieSeq.') and '._native.bv_decide.ax_' in a
+    seq_req = ['Librfn.C13.TieSeq.set_num_frames_tie', 'Librfn.C13.TieSeq.init_tie', 'Librfn.C13.TieSeq.validate_tie', 'Librfn.C13.TieSeq.encode_tie',
+               'Librfn.C13.TieSeq.encode_generated']
+    ctx.prove(['Librfn.Props.C13', 'Librfn.Props.C13Tie', 'Librfn.Props.C13TieSeq'], REQUIRED + ['Librfn.C13.get_format_tie'] + seq_req,
+              allow_extra_axioms=lambda t, a: tie_ok(t, a) or seq_ok(t, a))
+    ctx.cov['tie_T_generated_units'] = {'WavSeq': regen.UNITS2['WavSeq'][1], 'Wav': ['rf_wavheader_get_format']}
     exe = harness(ctx)
     q = ctx.tier == 'quick'
     hs = pw.corpus('C13')
